@@ -47,6 +47,7 @@ VARIABLES
   tmp,        \* <<>> (absent) or [lines, tail] of plans.jsonl.tmp
   lock,       \* "" or the holder
   lockfile,   \* does .ergo/lock exist (it is recreated on demand: stat, then create)
+  logfile,    \* does the log file exist (init creates it: stat, then create - without the lock)
   pc,         \* process -> parking point
   sec,        \* process -> index of the current section
   snap,       \* process -> log snapshot read under the lock
@@ -57,7 +58,7 @@ VARIABLES
   torn,       \* did some process die INSIDE a write(2) (history)
   acks,       \* sequence of [proc, exit] in order of termination (history)
   sched       \* witness schedule (history; hidden from VIEW)
-vars == <<scn, inodes, cur, tmp, lock, lockfile, pc, sec, snap, pend, outc, rd, now, crashes, torn, acks, sched>>
+vars == <<scn, inodes, cur, tmp, lock, lockfile, logfile, pc, sec, snap, pend, outc, rd, now, crashes, torn, acks, sched>>
 
 Procs   == DOMAIN scn.cmds
 Readers == scn.readers
@@ -130,13 +131,29 @@ Terminate(p, exit, busy) ==
   /\ acks' = Append(acks, [proc |-> p, exit |-> exit])
 
 \* start: validation, then on to the first flock
+\* `init` takes no lock: it stats the log file and creates it if it was missing.
+\* D17: the creation truncates (O_TRUNC) whatever another process wrote meanwhile
+InitBegin(p) ==
+  /\ pc[p] = "start" /\ CmdOf[p].name = "init"
+  /\ IF logfile THEN Terminate(p, 0, FALSE)
+                ELSE pc' = [pc EXCEPT ![p] = "mklog"] /\ UNCHANGED <<outc, acks>>
+  /\ Note(p, "step")
+  /\ UNCHANGED <<scn, inodes, cur, tmp, lock, lockfile, logfile, sec, snap, pend, rd, now, crashes, torn>>
+InitCreate(p) ==
+  /\ pc[p] = "mklog"
+  /\ logfile' = TRUE
+  /\ inodes' = IF "D17" \in Dev THEN [inodes EXCEPT ![cur] = Content(<<>>, "clean")] ELSE inodes
+  /\ Terminate(p, 0, FALSE)
+  /\ Note(p, "step")
+  /\ UNCHANGED <<scn, cur, tmp, lock, lockfile, sec, snap, pend, rd, now, crashes, torn>>
+
 Begin(p) ==
-  /\ pc[p] = "start"
+  /\ pc[p] = "start" /\ CmdOf[p].name # "init"
   /\ IF PreValid(CmdOf[p])
        THEN pc' = [pc EXCEPT ![p] = IF lockfile THEN "flock" ELSE "mklock"] /\ UNCHANGED <<scn, outc, acks>>
        ELSE Terminate(p, 1, FALSE)
   /\ Note(p, "step")
-  /\ UNCHANGED <<scn, inodes, cur, tmp, lock, lockfile, sec, snap, pend, rd, now, crashes, torn>>
+  /\ UNCHANGED <<scn, inodes, cur, tmp, lock, lockfile, logfile, sec, snap, pend, rd, now, crashes, torn>>
 
 \* the lock file was missing when the process looked: create it (an existing
 \* file is truncated, not replaced: every process ends up flocking one inode)
@@ -145,7 +162,7 @@ MkLock(p) ==
   /\ lockfile' = TRUE
   /\ pc' = [pc EXCEPT ![p] = "flock"]
   /\ Note(p, "step")
-  /\ UNCHANGED <<scn, inodes, cur, tmp, lock, sec, snap, pend, outc, rd, now, crashes, torn, acks>>
+  /\ UNCHANGED <<scn, inodes, cur, tmp, lock, logfile, sec, snap, pend, outc, rd, now, crashes, torn, acks>>
 
 TryLock(p) ==
   /\ pc[p] = "flock"
@@ -153,14 +170,14 @@ TryLock(p) ==
        THEN lock' = p /\ pc' = [pc EXCEPT ![p] = "acquired"] /\ UNCHANGED <<scn, outc, acks>>
        ELSE lock' = lock /\ Terminate(p, 1, TRUE)
   /\ Note(p, "step")
-  /\ UNCHANGED <<scn, inodes, cur, tmp, sec, snap, pend, rd, now, crashes, torn, lockfile>>
+  /\ UNCHANGED <<scn, inodes, cur, tmp, sec, snap, pend, rd, now, crashes, torn, lockfile, logfile>>
 
 ReadLog(p) ==
   /\ pc[p] = "acquired"
   /\ snap' = [snap EXCEPT ![p] = [log |-> ReadEvents(File), bad |-> HasGarbage(File)]]
   /\ pc' = [pc EXCEPT ![p] = "scanned"]
   /\ Note(p, "step")
-  /\ UNCHANGED <<scn, inodes, cur, tmp, lock, lockfile, sec, pend, outc, rd, now, crashes, torn, acks>>
+  /\ UNCHANGED <<scn, inodes, cur, tmp, lock, lockfile, logfile, sec, pend, outc, rd, now, crashes, torn, acks>>
 
 Decide(p) ==
   /\ pc[p] = "scanned"
@@ -189,7 +206,7 @@ Decide(p) ==
                     ELSE /\ pend' = [pend EXCEPT ![p] = batches]
                          /\ pc' = [pc EXCEPT ![p] = IF batches = <<>> THEN "releasing" ELSE "append"]
   /\ Note(p, "step")
-  /\ UNCHANGED <<scn, inodes, cur, tmp, lock, lockfile, sec, snap, rd, crashes, torn, acks>>
+  /\ UNCHANGED <<scn, inodes, cur, tmp, lock, lockfile, logfile, sec, snap, rd, crashes, torn, acks>>
 
 \* one write(2): the whole batch arrives (death inside it is Crash)
 AppendLine(p) ==
@@ -200,6 +217,7 @@ AppendLine(p) ==
          lines == IF glue THEN <<Garbage>> \o Tail(batch) ELSE batch
          kept == IF f.tail = "full" /\ glue THEN SubSeq(f.lines, 1, Len(f.lines) - 1) ELSE f.lines
      IN inodes' = [inodes EXCEPT ![cur] = Content(kept \o lines, "clean")]
+  /\ logfile' = TRUE
   /\ pend' = [pend EXCEPT ![p] = Tail(@)]
   /\ pc' = [pc EXCEPT ![p] = IF Len(pend[p]) = 1 THEN "releasing" ELSE "append"]
   /\ Note(p, "step")
@@ -210,7 +228,7 @@ WriteTmp(p) ==
   /\ tmp' = Content(Head(pend[p]), "clean")
   /\ pc' = [pc EXCEPT ![p] = "rename"]
   /\ Note(p, "step")
-  /\ UNCHANGED <<scn, inodes, cur, lock, lockfile, sec, snap, pend, outc, rd, now, crashes, torn, acks>>
+  /\ UNCHANGED <<scn, inodes, cur, lock, lockfile, logfile, sec, snap, pend, outc, rd, now, crashes, torn, acks>>
 
 Rename(p) ==
   /\ pc[p] = "rename"
@@ -218,6 +236,7 @@ Rename(p) ==
        /\ inodes' = Append(inodes, tmp)
        /\ cur' = n
   /\ tmp' = <<>>
+  /\ logfile' = TRUE
   /\ pend' = [pend EXCEPT ![p] = <<>>]
   /\ pc' = [pc EXCEPT ![p] = "releasing"]
   /\ Note(p, "step")
@@ -228,7 +247,7 @@ Unlock(p) ==
   /\ lock' = ""
   /\ pc' = [pc EXCEPT ![p] = "released"]
   /\ Note(p, "step")
-  /\ UNCHANGED <<scn, inodes, cur, tmp, sec, snap, pend, outc, rd, now, crashes, torn, acks, lockfile>>
+  /\ UNCHANGED <<scn, inodes, cur, tmp, sec, snap, pend, outc, rd, now, crashes, torn, acks, lockfile, logfile>>
 
 NextSection(p) ==
   /\ pc[p] = "released"
@@ -240,7 +259,7 @@ NextSection(p) ==
               /\ UNCHANGED <<scn, outc, acks>>
          ELSE Terminate(p, 0, FALSE) /\ UNCHANGED sec
   /\ Note(p, "step")
-  /\ UNCHANGED <<scn, inodes, cur, tmp, lock, lockfile, snap, pend, rd, now, crashes, torn>>
+  /\ UNCHANGED <<scn, inodes, cur, tmp, lock, lockfile, logfile, snap, pend, rd, now, crashes, torn>>
 
 \* process death at the current parking point; `how` says what a death inside
 \* write(2) left behind
@@ -266,7 +285,7 @@ Crash(p, how) ==
   /\ pc' = [pc EXCEPT ![p] = "exit"]
   /\ outc' = [outc EXCEPT ![p] = [exit |-> 137, busy |-> FALSE, reply |-> outc[p].reply]]
   /\ Note(p, "kill-" \o how)
-  /\ UNCHANGED <<scn, cur, sec, snap, pend, rd, now, acks, lockfile>>
+  /\ UNCHANGED <<scn, cur, sec, snap, pend, rd, now, acks, lockfile, logfile>>
 
 (***************************************************************************)
 (* Readers: no lock.                                                       *)
@@ -276,7 +295,7 @@ RPath(r) ==
   /\ pc[r] = "start"
   /\ pc' = [pc EXCEPT ![r] = "pathed"]
   /\ Note(r, "step")
-  /\ UNCHANGED <<scn, inodes, cur, tmp, lock, lockfile, sec, snap, pend, outc, rd, now, crashes, torn, acks>>
+  /\ UNCHANGED <<scn, inodes, cur, tmp, lock, lockfile, logfile, sec, snap, pend, outc, rd, now, crashes, torn, acks>>
 
 \* ... and opens it
 ROpen(r) ==
@@ -284,14 +303,14 @@ ROpen(r) ==
   /\ rd' = [rd EXCEPT ![r] = [@ EXCEPT !.inode = cur]]
   /\ pc' = [pc EXCEPT ![r] = "opened"]
   /\ Note(r, "step")
-  /\ UNCHANGED <<scn, inodes, cur, tmp, lock, lockfile, sec, snap, pend, outc, now, crashes, torn, acks>>
+  /\ UNCHANGED <<scn, inodes, cur, tmp, lock, lockfile, logfile, sec, snap, pend, outc, now, crashes, torn, acks>>
 
 RProbe(r) ==
   /\ pc[r] = "opened"
   /\ rd' = [rd EXCEPT ![r] = [@ EXCEPT !.nl = inodes[rd[r].inode].tail = "clean"]]
   /\ pc' = [pc EXCEPT ![r] = "probed"]
   /\ Note(r, "step")
-  /\ UNCHANGED <<scn, inodes, cur, tmp, lock, lockfile, sec, snap, pend, outc, now, crashes, torn, acks>>
+  /\ UNCHANGED <<scn, inodes, cur, tmp, lock, lockfile, logfile, sec, snap, pend, outc, now, crashes, torn, acks>>
 
 RScan(r) ==
   /\ pc[r] = "probed"
@@ -302,15 +321,15 @@ RScan(r) ==
   /\ pc' = [pc EXCEPT ![r] = "exit"]
   /\ outc' = [outc EXCEPT ![r] = [exit |-> 0, busy |-> FALSE, reply |-> Reply0]]
   /\ Note(r, "step")
-  /\ UNCHANGED <<scn, inodes, cur, tmp, lock, lockfile, sec, snap, pend, now, crashes, torn, acks>>
+  /\ UNCHANGED <<scn, inodes, cur, tmp, lock, lockfile, logfile, sec, snap, pend, now, crashes, torn, acks>>
 
-WStep(p) == Begin(p) \/ MkLock(p) \/ TryLock(p) \/ ReadLog(p) \/ Decide(p) \/ AppendLine(p) \/ WriteTmp(p)
+WStep(p) == InitBegin(p) \/ InitCreate(p) \/ Begin(p) \/ MkLock(p) \/ TryLock(p) \/ ReadLog(p) \/ Decide(p) \/ AppendLine(p) \/ WriteTmp(p)
             \/ Rename(p) \/ Unlock(p) \/ NextSection(p)
 RStep(r) == RPath(r) \/ ROpen(r) \/ RProbe(r) \/ RScan(r)
 
 Init ==
   /\ scn \in Scenarios
-  /\ inodes = <<Content(InitLog, "clean")>> /\ cur = 1 /\ tmp = <<>> /\ lock = "" /\ lockfile = ~scn.nolock
+  /\ inodes = <<Content(InitLog, "clean")>> /\ cur = 1 /\ tmp = <<>> /\ lock = "" /\ lockfile = ~scn.nolock /\ logfile = ~scn.nolog
   /\ pc = [p \in Procs \cup Readers |-> "start"]
   /\ sec = [p \in Procs |-> 1]
   /\ snap = [p \in Procs |-> [log |-> <<>>, bad |-> FALSE]]
@@ -361,7 +380,7 @@ NeverWaits == TRUE   \* structural: TryLock has no waiting state
 (***************************************************************************)
 (* VIEW and emission.                                                      *)
 (***************************************************************************)
-PView == <<scn.name, inodes, cur, tmp, lock, lockfile, pc, sec, snap, pend, outc, rd, crashes, torn>>
+PView == <<scn.name, inodes, cur, tmp, lock, lockfile, logfile, pc, sec, snap, pend, outc, rd, crashes, torn>>
 
 Enabled(p) == IF p \in Readers THEN pc[p] # "exit" ELSE pc[p] # "exit"
 KillsAt(p) == IF p \in Procs /\ crashes < MaxCrashes /\ pc[p] \notin {"exit", "start"}
